@@ -15,6 +15,7 @@ import (
 	"os"
 	"strconv"
 	"sync"
+	"sync/atomic"
 	"time"
 
 	"github.com/metal-toolbox/auditevent"
@@ -185,6 +186,17 @@ func pickLine(r *rand.Rand, sc Scenario, pools map[string][]sshdvec.Vector, form
 	}
 }
 
+// slow counts waits that ran into their time-out (a worker that neither wrote nor returned, or did not return after
+// its context was cancelled); once that has been seen a few times the generous waits are shortened.
+var slow atomic.Int64
+
+func patience(d time.Duration) <-chan time.Time {
+	if slow.Load() > 6 {
+		return time.After(200 * time.Millisecond)
+	}
+	return time.After(d)
+}
+
 func runOne(lg *logger, r *rand.Rand, sc Scenario, pools map[string][]sshdvec.Vector, idx int, form string) {
 	pid, line, cred := pickLine(r, sc, pools, form)
 	lg.log(map[string]any{"k": "reset", "idx": idx, "sc": sc, "pid": pid, "line": line, "form": form})
@@ -286,7 +298,8 @@ func runOne(lg *logger, r *rand.Rand, sc Scenario, pools map[string][]sshdvec.Ve
 	case res := <-done:
 		logReturn(res)
 		returned = true
-	case <-time.After(3 * time.Second):
+	case <-patience(3 * time.Second):
+		slow.Add(1)
 	}
 	// phase 2: the hand-off
 	if !wait(40 * time.Millisecond) {
@@ -322,7 +335,8 @@ func runOne(lg *logger, r *rand.Rand, sc Scenario, pools map[string][]sshdvec.Ve
 	if !returned {
 		select {
 		case <-done:
-		case <-time.After(2 * time.Second):
+		case <-patience(2 * time.Second):
+			slow.Add(1)
 		}
 	}
 	if receiverStarted {
